@@ -87,8 +87,9 @@ CHECKS = {
              "rule as a single formula and its corollaries; c13_nothing_selected_identity: with pre_expand, every page of text, "
              "links and calls that are left alone (plain names, no colon, not a parser function, not selected) comes back "
              "exactly as written, every call re-emitted with the same name and arguments (Proofs/IdentityProofs.v, any "
-             "nesting). PARTIAL: hook clauses, parser-function re-emission and template arguments/nowiki on the page are "
-             "decided per run (the latter two are known deviations).",
+             "nesting); c13_template_fn_result_replaces_the_call (the string template_fn returns is the expansion of the call, "
+             "modulo the automatic line break and post_template_fn). PARTIAL: 'exactly once per call' and the argument map the "
+             "hooks receive, parser-function re-emission and template arguments/nowiki on the page are decided per run.",
         note=TRUST + "regex-based _encode/_finalize_expand glue under the diff; hooks are harness-supplied tables.",
         ref="DESIGN.md section 4 C13"),
     "C15": dict(
